@@ -6,8 +6,14 @@
 #   /tmp/vsb-<name>/verif  copy of /verif (without work/, replays/), its harness depending on the copied repo
 # The command runs in the copied verif with VERIF_ROOT and REPO_ROOT exported. Remove the sandbox afterwards:
 #   rm -rf /tmp/vsb-<name>
+refresh=0; [ "$1" = "--refresh" ] && { refresh=1; shift; }
 name=$1; shift
 sb=/tmp/vsb-$name
+if [ $refresh = 1 ] && [ -d $sb/verif ]; then
+  # bring the copy up to date with /verif (build outputs of the copy are kept)
+  rsync -a --delete --exclude work --exclude replays --exclude harness/target --exclude lean/.lake --exclude .git --exclude harness/Cargo.toml /verif/ $sb/verif/
+  git -C $sb/repo checkout -q -- . 2>/dev/null
+fi
 if [ ! -d $sb/verif ]; then
   mkdir -p $sb
   git clone -q /repo $sb/repo
